@@ -110,6 +110,26 @@ fn main() {
             }
             std::env::set_current_dir("/").unwrap();
             let _ = std::fs::remove_dir_all(&sandbox);
+            // phase 2: HOME changes inside the running process - "~" must follow it (no cached home directory);
+            // these records go to a second file that is judged with the new environment
+            if let Some(h2) = arg("rehome") {
+                std::env::set_var("HOME", &h2);
+                let mut out2 = Out::create(format!("{}.phase2", arg_or("out", "/dev/stdout")));
+                let m = Memfs::new();
+                for t in ["~", "~/x", "~/a/../b", "$HOME/x", "${HOME}", "~/", "a/~"] {
+                    let p = PathBuf::from(t);
+                    let r = gres(|| res_path(m.abs(&p)));
+                    out2.rec(&json!({"k": "a", "be": "memfs", "a": chars(t), "cwd": chars("/"), "o": {"abs": r}}));
+                    let r = gres(|| res_path(Stdfs::abs(&p)));
+                    out2.rec(&json!({"k": "a", "be": "stdfs", "a": chars(t), "cwd": chars("/"), "o": {"abs": r.clone(), "abs_assoc": r}}));
+                    let mut o = Map::new();
+                    o.insert("expand".into(), gres(|| res_path(sys::expand(&p))));
+                    o.insert("x_expand".into(), gres(|| res_path(p.expand())));
+                    o.insert("abs".into(), gres(|| res_path(m.abs(&p))));
+                    out2.rec(&json!({"k": "x", "a": chars(t), "cwd": ["/"], "o": Value::Object(o)}));
+                }
+                out2.finish();
+            }
         },
         _ => {
             eprintln!("unknown mode");
